@@ -3,7 +3,8 @@
    value_expr > assign > lambda > comma > querycolon > or > and > logic > add > mul > unary > dot >
    call > value_term (14 C++ frames per level).  The model keeps exactly that control skeleton:
    tokens are `(`, `)`, a terminal and a binary operator; an expression is a term followed by
-   (operator term)*, parsed by a loop, so only parentheses deepen the recursion.  The parser
+   (operator term)*, parsed by a loop, so only parentheses deepen the recursion (function calls
+   `f(x)` and juxtaposition are not modelled).  The parser
    returns the deepest level reached.  `limit` is the nesting bound of the source, if any
    (Gen/SafetyGuards.src_parse_depth_limit; None on a tree without a guard).
    Definitions only. *)
@@ -15,53 +16,58 @@ Inductive tok : Type := TLp | TRp | TVal | TOp.
 (* frames of the C++ call ladder between two successive `(` *)
 Definition frames_per_level : Z := 14.
 
-(* parse_term fuel d ts: d = number of enclosing parentheses; returns (deepest level, rest).
-   The two functions of the C++ (term, and the operator loop of the ladder) are fused into one
-   structurally recursive function over the fuel; fuel = length of the input suffices. *)
-Fixpoint parse_term (limit : option Z) (fuel : nat) (d : Z) (ts : list tok) : res (Z * list tok) :=
+(* The C++ parser is lenient, and the model keeps that: a term may be EMPTY (parse_value_term
+   pushes back any token that cannot start a term and returns a null node), an empty expression
+   is accepted (`()` evaluates to nothing), an operator must be followed by a non-empty term
+   ("operator not followed by argument"), `(` must be closed by `)`, and whatever follows a
+   complete top-level expression is ignored (`1)` prints 1).
+   Results are (non-empty?, deepest level reached, remaining tokens); d = number of enclosing
+   parentheses; fuel = 3 * length of the input + 3 always suffices. *)
+Fixpoint parse_term (limit : option Z) (fuel : nat) (d : Z) (ts : list tok) : res (bool * Z * list tok) :=
   match fuel with
   | O => Err EOutOfFuel
   | S fuel' =>
       match ts with
-      | TVal :: rest => parse_tail limit fuel' d d rest
+      | TVal :: rest => Ok (true, d, rest)
       | TLp :: rest =>
-          match limit with
-          | Some L => if L <? d + 1 then Err EOther      (* "expression nested too deeply" *)
-                      else inner limit fuel' d rest
-          | None => inner limit fuel' d rest
-          end
-      | _ => Err EOther                                  (* operator not followed by argument *)
+          if match limit with Some L => L <? d + 1 | None => false end
+          then Err EOther                                 (* "expression nested too deeply" *)
+          else match parse_expr limit fuel' (d + 1) rest with
+               | Ok (nn, m, TRp :: rest') => Ok (nn, m, rest')
+               | Ok _ => Err EOther                       (* wanted ')' *)
+               | Err e => Err e
+               end
+      | _ => Ok (false, d, ts)                            (* push_token: nothing consumed *)
       end
   end
-with inner (limit : option Z) (fuel : nat) (d : Z) (rest : list tok) : res (Z * list tok) :=
+with parse_expr (limit : option Z) (fuel : nat) (d : Z) (ts : list tok) : res (bool * Z * list tok) :=
   match fuel with
   | O => Err EOutOfFuel
   | S fuel' =>
-      match parse_term limit fuel' (d + 1) rest with
-      | Ok (m, TRp :: rest') => parse_tail limit fuel' d m rest'
-      | Ok (_, _) => Err EOther                          (* missing ')' *)
-      | Err e => Err e
+      match parse_term limit fuel' d ts with
+      | Ok (true, m, rest) => parse_tail limit fuel' d m rest
+      | r => r
       end
   end
-with parse_tail (limit : option Z) (fuel : nat) (d m : Z) (ts : list tok) : res (Z * list tok) :=
+with parse_tail (limit : option Z) (fuel : nat) (d m : Z) (ts : list tok) : res (bool * Z * list tok) :=
   match fuel with
-  | O => Ok (m, ts)
+  | O => Err EOutOfFuel
   | S fuel' =>
       match ts with
       | TOp :: rest =>
           match parse_term limit fuel' d rest with
-          | Ok (m', rest') => Ok (Z.max m m', rest')
+          | Ok (true, m', rest') => parse_tail limit fuel' d (Z.max m m') rest'
+          | Ok (false, _, _) => Err EOther                (* operator not followed by argument *)
           | Err e => Err e
           end
-      | _ => Ok (m, ts)
+      | _ => Ok (true, m, ts)
       end
   end.
 
-(* a whole expression: all tokens consumed *)
+(* a whole expression; trailing tokens are ignored, as expr_t::parse does *)
 Definition parse_depth (limit : option Z) (ts : list tok) : res Z :=
-  match parse_term limit (3 * length ts + 3) 0 ts with
-  | Ok (m, []) => Ok m
-  | Ok (_, _ :: _) => Err EOther
+  match parse_expr limit (3 * length ts + 3) 0 ts with
+  | Ok (_, m, _) => Ok m
   | Err e => Err e
   end.
 
